@@ -943,6 +943,7 @@ class OTok(g.Tok):
 
 
 POOLV = [OTok(i) for i in range(4)]
+_HASH_CACHE_FIELD = attr._make._HASH_CACHE_FIELD
 
 
 class _DecoProxy:
@@ -1004,6 +1005,7 @@ def _copy_spec(spec, base, slots):
     s2 = {k: copy.deepcopy(v) for k, v in spec.items() if k not in ("base", "_named_sig")}
     s2["base"] = base
     s2["slots"] = slots
+    s2["plain_between"] = False       # the undecorated class in between is PlainOver's business here (both builds)
     return s2
 
 
@@ -1021,8 +1023,9 @@ def build_pair(rng):
     plain_between = depth >= 2 and rng.random() < 0.2
     plain_slots = rng.random() < 0.5
     legacy = rng.random() < 0.12
+    gs = rng.choice([None, None, True, False, False])
     facts = {"variant": variant, "depth": depth, "plain_between": plain_between, "legacy_hash_false": False,
-             "k6_shape": False}
+             "k6_shape": False, "getstate_setstate": str(gs)}
     bS = bD = None
     for level in range(depth):
         leaf = level == depth - 1
@@ -1030,8 +1033,13 @@ def build_pair(rng):
         for _attempt in range(30):
             spec = g.gen_class_spec(rng, uid, base=bS)
             extra = None
-            if leaf and legacy and not spec["cache_hash"]:
+            is_legacy = leaf and legacy and not spec["cache_hash"]
+            if is_legacy:
                 extra = {"attrs": {"hash": False}, "define": {"unsafe_hash": False}}
+            if leaf and gs is not None:
+                extra = extra or {"attrs": {}, "define": {}}
+                extra["attrs"]["getstate_setstate"] = gs
+                extra["define"]["getstate_setstate"] = gs
             flip = leaf or variant == "chain"
             sS = _copy_spec(spec, bS, True if flip else spec["slots"])
             cS = CUT2(sS, extra)
@@ -1053,7 +1061,7 @@ def build_pair(rng):
         else:
             return None
         if leaf:
-            facts["legacy_hash_false"] = bool(extra)
+            facts["legacy_hash_false"] = bool(is_legacy)
             chain, cb = [], bS
             while cb is not None:
                 if not isinstance(cb, PlainOver):
@@ -1198,6 +1206,31 @@ def observe_build(cut, shape_seed):
                 obs["pickle"] = [r[0], after(r[1])] if r[0] == "ok" else r
                 if r[0] == "ok" and stable:
                     obs["hashkept:pickle"] = hash_kept(r[1])
+                # histories: the instance is hashed BEFORE it is copied (optionally a hash field is changed
+                # in between): the copy must answer the hash of ITS OWN field values
+                if _outcome(lambda: hash(inst))[0] == "ok":
+                    def own_hash_ok(res):
+                        h1 = hash(res)
+                        if hasattr(res, _HASH_CACHE_FIELD):
+                            object.__setattr__(res, _HASH_CACHE_FIELD, None)     # force a recomputation
+                        return h1 == hash(res)
+                    ops3 = (("copy", copy.copy), ("deepcopy", copy.deepcopy),
+                            ("pickle", lambda o: pickle.loads(pickle.dumps(o))))
+                    hf = [a.name for a in attr.fields(cls) if a.hash is True or (a.hash is None and a.eq is True)]
+                    for hname in ("hash", "hash-mutate"):
+                        if hname == "hash-mutate" and (cut.frozen or not hf):
+                            continue
+                        for opname, opf in ops3:
+                            x = fresh()
+                            hash(x)
+                            if hname == "hash-mutate":
+                                cur = getattr(x, hf[0])
+                                object.__setattr__(x, hf[0], POOLV[2] if cur is POOLV[1] else POOLV[1])
+                            before = _state(cls, x)
+                            r = _outcome(lambda: opf(x))
+                            obs["hist:%s-%s" % (hname, opname)] = (
+                                [r[0], _outcome(lambda: _state(cls, r[1]) == before), _outcome(lambda: own_hash_ok(r[1]))]
+                                if r[0] == "ok" else r)
             finally:
                 if had is None:
                     delattr(g, cls.__name__)
@@ -1243,8 +1276,24 @@ def meta_case(seed, index):
     if _digest(oS.get("hash")) != _digest(oD.get("hash")):
         # whether the copy keeps the hash is only comparable when the two builds hash alike
         for o in (oS, oD):
-            for l in [l for l in o if l.startswith("hashkept:")]:
+            for l in [l for l in o if l.startswith(("hashkept:", "hist:"))]:
                 del o[l]
+    if facts["getstate_setstate"] == "False":
+        # the user opted out of attrs' pickle support: copying is CPython's default protocol, which restores
+        # slots through setattr (hooks, frozen: C10's K5 region) - compare only what both builds can do, and of
+        # that only whether the copy answers the hash of its own fields
+        for o in (oS, oD):
+            for l in [l for l in o if l.split(":")[0] in ("copy", "deepcopy", "pickle", "hashkept")]:
+                del o[l]
+        for l in sorted(set(oS) | set(oD)):
+            if l.startswith("hist:"):
+                a, d = oS.get(l), oD.get(l)
+                def usable(v):      # copied, every field kept its value, and the copy can be hashed
+                    return (isinstance(v, list) and len(v) == 3 and v[0] == "ok" and v[1] == ["ok", True]
+                            and v[2][0] == "ok")
+                if not (usable(a) and usable(d)):
+                    oS.pop(l, None)
+                    oD.pop(l, None)
     labels = sorted(set(oS) | set(oD))
     triples, differing = [], {}
     for l in labels:
@@ -1254,7 +1303,21 @@ def meta_case(seed, index):
         if da != dd:
             differing[l] = {"slots": a, "dict": d}
     kinds = sorted(set(l.split(":")[0] for l in differing))
-    ser = [k for k in kinds if k in ("copy", "deepcopy", "pickle", "hashkept")]
+    ser = [k for k in kinds if k in ("copy", "deepcopy", "pickle", "hashkept", "hist")]
+    ser_labels = sorted(l for l in differing if l.split(":")[0] in ser)
+
+    def _ser_outcomes(side):
+        out = set()
+        for l in ser_labels:
+            v = differing[l][side]
+            if isinstance(v, list) and len(v) == 2 and v[0] == "raised":
+                out.add(v[1])
+            elif isinstance(v, list) and v and v[0] == "ok":
+                own = v[-1]
+                out.add("ok" if not (isinstance(own, list) and own[:1] == ["ok"] and own[1] is False) else "stale-hash")
+            else:
+                out.add(str(v)[:30])
+        return "+".join(sorted(out))
     k6_active = False
     if facts["k6_shape"] and cS.cls is not None and cD.cls is not None:
         # the hooked base's generated __setattr__ is still what the slotted class resolves, while the dict
@@ -1265,7 +1328,13 @@ def meta_case(seed, index):
     sig = {"kind": "slots-dict-disagree", "differs": "+".join(k for k in kinds if k not in ser),
            "serialization_differs": bool(ser), "legacy_hash_false": facts["legacy_hash_false"],
            "k6_shape": facts["k6_shape"], "k6_base_setattr_kept_by_slots_build": k6_active,
-           "is_exception_class": bool(cS.cls is not None and issubclass(cS.cls, BaseException))}
+           "is_exception_class": bool(cS.cls is not None and issubclass(cS.cls, BaseException)),
+           "getstate_setstate": facts["getstate_setstate"], "frozen": bool(cS.frozen),
+           "cache_hash": bool(cS.spec["cache_hash"])}
+    if ser:
+        sig["ser_labels"] = "+".join(ser_labels)
+        sig["ser_slots"] = _ser_outcomes("slots")
+        sig["ser_dict"] = _ser_outcomes("dict")
     if "hash" in differing:
         def _outs(v):
             return "+".join(sorted(set(map(str, v["outcome"])))) if isinstance(v, dict) else str(v)
@@ -1275,6 +1344,8 @@ def meta_case(seed, index):
         # with the base's hooks still active even construction can differ: one signature for the family
         sig["differs"] = sig["differs"] and "k6-downstream"
         sig["serialization_differs"] = False
+        for k_ in ("ser_labels", "ser_slots", "ser_dict"):
+            sig.pop(k_, None)
         sig.pop("hash_slots", None)
         sig.pop("hash_dict", None)
     seen = {"differing": differing, "labels": len(labels), "facts": {k: v for k, v in facts.items() if k != "spec"},
